@@ -22,12 +22,15 @@ CHECKS = {
              "with rho and t, the final test of 5.3 with the Stirling corrections and their signs, the reflection), Geometric (trivial algorithm for p >= 2/3; "
              "Bringmann-Friedrich otherwise: D counted below pi, M = w & (2^k - 1) accepted with probability (1-p)^M on both the powi and the powf branch, result "
              "D 2^k + M) and Hypergeometric HIN (start from initial_p/initial_x, pmf-ratio recurrence, the order of u -= p, the x < k bound, the result "
-             "offset_x + sign_x x). Every comparison is a test of the reference (integer comparisons including their strictness), the decision "
+             "offset_x + sign_x x) and Poisson for lambda >= 12 (Ahrens-Dieter algorithm PD: Poisson::new's switch at 12 and MAX_LAMBDA, the set-up constants "
+             "s, d, L, c, c0..c3, omega, step N's normal proposal, steps I, S and Q on the shared uniform, the double-exponential step E with its threshold, "
+             "step H, and procedure F with the factorial table, Table 1 unrolled through the fold and the delta correction) and Hypergeometric::new (the two "
+             "reflections K <-> N-K and n <-> N-n with sign_x / offset_x, the HIN/H2PE switch at M - max(0, k - n2) < 10, HIN's starting point and its "
+             "PopulationTooLarge exits, H2PE's constants m, a, d, x_l, x_r, k_l, k_r, lambda_l, lambda_r, p1..p3). Every comparison is a test of the reference (integer comparisons including their strictness), the decision "
              "functions agree on every feasible truth assignment, returned terms, updates of the carried variables and derived constants are identical over the reals.",
         design_ref="DESIGN.md 5/C02 and 11.9",
-        note="PARTIAL: Poisson's rejection method (Ahrens-Dieter), Hypergeometric's H2PE sampler (its paths are marked `unspecified` in the reference and skipped) and "
-             "Hypergeometric::new (set-up constants and the HIN/H2PE switch; a reference is written down but not armed because the extractor leaves some of its "
-             "temporaries unresolved) are NOT examined by this check (listed in the evidence notes) — for those nothing of C02 is decided. `as u64` / `as f64` casts are transparent in the terms (floor of a cast is not modelled). "
+        note="PARTIAL: Hypergeometric's H2PE sampling loop (the RejectionAcceptance arm of Hypergeometric::sample; its paths are marked `unspecified` in the "
+             "reference and skipped) is NOT examined by this check (listed in the evidence notes) — nothing of C02 is decided for it. `as u64` / `as f64` casts are transparent in the terms (floor of a cast is not modelled). "
              "NOT decided anywhere: the probability mass function (that the references have the documented pmf is a cited theorem), the numerical "
              "accuracy of the acceptance test for huge proposals (the Zeta(1.05) deviation named in the property is of that kind).",
         technique="decision-structure and transition-system extraction from rustc MIR (cut points at loop headers, path-sensitive values of loop-carried variables) + computer-algebra identity and path-pair comparison against transcribed reference algorithms",
